@@ -53,6 +53,63 @@ def run(chk):
                     else:
                         ev.update(len_ok=False, dev=0, par_dev=0)
                     batch.add(ev, {'cls': name, 'dt': dt, 'N': N, 'nfft': nfft, 'c': c, 'kind': kind, 'seed': chk.seed})
+    # functional forms (defaults included: speriodogram detrends by default) and the live object after an NFFT change
+    import spectrum as sp
+    from spectrum.eigenfre import eigen
+    for N, nfft, c in confs[:3]:
+        for dt in ('real', 'complex'):
+            x = zoo.signal(rng, N, dt == 'complex', 'tones') + 0.7
+            forms = {
+                'speriodogram()': lambda n: sp.speriodogram(x.copy(), NFFT=n),
+                'speriodogram(detrend=False)': lambda n: sp.speriodogram(x.copy(), NFFT=n, detrend=False, scale_by_freq=False),
+                'CORRELOGRAMPSD()': lambda n: sp.CORRELOGRAMPSD(x.copy(), lag=10, NFFT=n),
+                'minvar()': lambda n: sp.minvar(x.copy(), 4, NFFT=n)[0],
+                'music()': lambda n: eigen(x.copy(), 8, NSIG=2, method='music', NFFT=n)[0],
+                'ev()': lambda n: eigen(x.copy(), 8, NSIG=2, method='ev', NFFT=n)[0],
+                'arma2psd()': lambda n: sp.arma2psd(A=[0.5, -0.2], B=[0.3], rho=2.0, NFFT=n),
+            }
+            for fname, f in forms.items():
+                ev = {'ev': 'grid', 'cls': fname, 'dt': dt, 'N': N, 'nfft': nfft, 'c': c, 'lag': 0, 'order': 0}
+                ok1, a = call_guard(f, nfft)
+                ok2, b = call_guard(f, c * nfft)
+                ev['raised'] = not (ok1 and ok2)
+                if ok1 and ok2:
+                    a, b = np.asarray(a), np.asarray(b)
+                    if fname.startswith('speriodogram()'):
+                        # scale_by_freq is on by default: 2*pi/df grows with NFFT, divide it out
+                        a, b = a / nfft, b / (c * nfft)
+                    centred = fname in ('music()', 'ev()')
+                    if centred:      # centred layout: entry j <-> bin j - n//2
+                        ia = np.arange(len(a))
+                        ib = (ia - nfft // 2) * c + (c * nfft) // 2
+                    else:
+                        ia = np.arange(len(a))
+                        ib = ia * c
+                    ev['len_ok'] = True
+                    ev['dev'] = obs.q(np.max(np.abs(b[ib] - a[ia])) / max(float(np.max(np.abs(a))), 1e-300)) if ib.max() < len(b) and ib.min() >= 0 else obs.QCAP
+                    ev['par_dev'] = 0
+                else:
+                    ev.update(len_ok=False, dev=0, par_dev=0)
+                batch.add(ev, {'form': fname, 'dt': dt, 'N': N, 'nfft': nfft, 'c': c, 'seed': chk.seed})
+            for name in zoo.CLASSES:
+                ev = {'ev': 'grid', 'cls': name, 'dt': dt, 'N': N, 'nfft': nfft, 'c': c, 'lag': p['corrlag'], 'order': 0, 'live': True}
+
+                def live():
+                    o = zoo.build(name, x.copy(), nfft, 1.0, False, **over)
+                    first = np.array(o.psd)
+                    o.NFFT = c * nfft
+                    return first, np.array(o.get_converted_psd(o._default_sides())), np.array(o.psd)
+                ok1, r = call_guard(live)
+                ok2, fresh = call_guard(lambda: np.array(zoo.build(name, x.copy(), c * nfft, 1.0, False, **over).psd))
+                ev['raised'] = not (ok1 and ok2)
+                if ok1 and ok2:
+                    first, conv, second = r
+                    ev['len_ok'] = bool(conv.shape == fresh.shape and second.shape == fresh.shape)
+                    ev['dev'] = obs.q(max(zoo.rel_dev(conv, fresh), zoo.rel_dev(second, fresh))) if ev['len_ok'] else obs.QCAP
+                    ev['par_dev'] = 0
+                else:
+                    ev.update(len_ok=False, dev=0, par_dev=0)
+                batch.add(ev, {'cls': name, 'dt': dt, 'N': N, 'nfft': nfft, 'c': c, 'live': True, 'seed': chk.seed})
     obs.validate(chk, batch, 'obs-grids', lambda ev, cl: 'C05:%s:%s:%s:%s' % (ev['cls'], ev['dt'], 'odd' if ev['nfft'] % 2 else 'even', cl),
                  lambda ev, cl: '%s (%s) NFFT=%d vs %d*NFFT: clause "%s" fails: %s' % (ev['cls'], ev['dt'], ev['nfft'], ev['c'], cl, ev))
     chk.sample('obs-event', batch.events[0], 1)
